@@ -10,7 +10,8 @@
     of the data becomes an object without attributes (`FruData.__init__: if data:`)       -> `Slot.empty`
   * the header's format version is read but not checked; its checksum is
   * an info area is handed `data[offset:]` (everything up to the END OF THE IMAGE); the checksum
-    is over `data[:length]`, a clamped slice (length 0 -> empty sum -> accepted)
+    is over `data[:length]`, a clamped slice (length 0 -> empty sum -> accepted; a length behind
+    the end of the data -> sum over what is there) – as shipped (`areaLenLax`)
   * fields are read with running offsets (`offset += field.length + 1`) – here: the remaining
     bytes are dropped; a read behind the end is `IndexError`
   * `raw = data[offset+1:offset+1+length]` is clamped
@@ -21,10 +22,16 @@
   * records: type C0h is parsed as PICMG record whatever the manufacturer id says; the record
     object is built twice; `raw = data[5:5+length]` is clamped; PICMG fields are read from fixed
     positions even when the record is shorter (the tail of the image must have 10 / 12 bytes)
+    – as shipped (`picmgTypeOnly`)
 
-  `Variant` carries the two repaired behaviours (DESIGN §2.4): `asShipped` is the pinned tree,
-  `intended` the tree after fixes/C15-1.diff.  Byte-level bit expressions whose constants come
-  from the source are evaluated from `Gen/FruTables.lean`.  Core only.
+  `Variant` carries the repaired behaviours (DESIGN §2.4): `asShipped` is the pinned tree,
+  `intended` the tree after fixes/C15-1.diff (BCD+ on non-bytes, partial 6-bit group),
+  fixes/C15-2.diff (info-area length byte validated: not 0, inside the data – in
+  `CommonInfoArea._from_data` and, for the device path, in `Fru._read_fru_area`) and
+  fixes/C15-3.diff (a C0h record is a PICMG record only if its own data are long enough and start
+  with the PICMG manufacturer id; PICMG fields are read only from inside the record).  The harness
+  PROBES every flag on the tree under test.  Byte-level bit expressions whose constants come from
+  the source are evaluated from `Gen/FruTables.lean`.  Core only.
 -/
 import PyIpmi.Base.Outcome
 import PyIpmi.Base.Bytes
@@ -36,10 +43,17 @@ open PyIpmi PyIpmi.Gen
 structure Variant where
   bcdBytesOnly : Bool     -- BCD+ text decodes only when the image is a `bytes` object
   sixStrict : Bool        -- a 6-bit group shorter than 3 bytes raises IndexError
+  areaLenLax : Bool       -- CommonInfoArea._from_data: area length 0 / behind the end of the data is not
+                          --   rejected, the checksum is summed over a clamped (possibly empty) slice
+  devLenLax : Bool        -- Fru._read_fru_area: area length 0 reads nothing -> attribute-less area object
+  picmgTypeOnly : Bool    -- every C0h record is a PICMG record; the length guards look at the rest of
+                          --   the image instead of the record's own length
   deriving Repr, DecidableEq, Inhabited
 
-def Variant.asShipped : Variant := ⟨true, true⟩
-def Variant.intended : Variant := ⟨false, false⟩
+def Variant.asShipped : Variant := ⟨true, true, true, true, true⟩
+def Variant.intended : Variant := ⟨false, false, false, false, false⟩
+/-- the pinned tree after fixes/C15-1.diff only (the tree the FRU audit looked at) -/
+def Variant.afterC15_1 : Variant := ⟨false, false, true, true, true⟩
 
 /-- Python type of the image object handed to `FruInventory` -/
 inductive InputKind where
@@ -162,7 +176,8 @@ def parseArea (v : Variant) (k : InputKind) (kind : AreaKind) (d : List Nat) : O
     else match d[1]? with
       | none => .pyError "IndexError"
       | some b1 =>
-        if (d.take (b1 * 8)).sum % 256 ≠ 0 then .decodingError
+        if !v.areaLenLax && (b1 * 8 == 0 || decide (d.length < b1 * 8)) then .decodingError
+        else if (d.take (b1 * 8)).sum % 256 ≠ 0 then .decodingError
         else match d[2]? with
           | none => .pyError "IndexError"
           | some b2 =>
@@ -198,25 +213,46 @@ structure PicmgRec where
   version : Nat
   deriving Repr, DecidableEq, Inhabited
 
+/-- `data[5] | data[6] << 8 | data[7] << 16` -/
+def mfgOf (d : List Nat) : Nat := d.getD 5 0 + d.getD 6 0 * 256 + d.getD 7 0 * 65536
+
+/-! Constants of the repaired dispatch and guards (fixes/C15-3.diff), taken from the source when it
+has them (`Gen/FruTables`: `some …`); a tree without them is the `picmgTypeOnly` variant, which
+does not use them – the defaults are the storage definition's. -/
+def picmgMfg : Nat := FruTables.picmgMfgId.getD picmgMfgId
+def dispMinData : Nat := FruTables.dispatchMinData.getD 10
+def dispMinLen : Nat := FruTables.dispatchMinLen.getD 5
+def picmgMinLen : Nat := FruTables.picmgMinLen.getD 5
+def powerMinLen : Nat := FruTables.powerMinLen.getD 7
+
 /-- FruPicmgRecord._from_data -/
-def picmgRecord (d : List Nat) : Outcome PicmgRec :=
+def picmgRecord (v : Variant) (d : List Nat) : Outcome PicmgRec :=
   if d.length < FruTables.minPicmg then .decodingError
   else (baseRecord d).bind fun b =>
-    .ok ⟨b, d.getD 5 0 + d.getD 6 0 * 256 + d.getD 7 0 * 65536, d.getD 8 0, d.getD 9 0⟩
+    if !v.picmgTypeOnly && decide (b.length < picmgMinLen) then .decodingError
+    else .ok ⟨b, mfgOf d, d.getD 8 0, d.getD 9 0⟩
+
+/-- the test of `create_from_record_id` behind `data[0] == TYPE_OEM_PICMG`:
+repaired `len(data) >= 10 and data[2] >= 5 and (data[5] | data[6] << 8 | data[7] << 16) == PICMG_MANUFACTURER_ID` -/
+def isPicmgRec (v : Variant) (d : List Nat) : Bool :=
+  v.picmgTypeOnly ||
+    (decide (dispMinData ≤ d.length) && decide (dispMinLen ≤ d.getD 2 0) && mfgOf d == picmgMfg)
 
 /-- FruDataMultiRecord.create_from_record_id (argument: `data[offset:]`) -/
-def parseRecord (d : List Nat) : Outcome RecView :=
+def parseRecord (v : Variant) (d : List Nat) : Outcome RecView :=
   match d with
   | [] => .pyError "IndexError"
   | t :: _ =>
-    if t = FruTables.picmgRecordType then
-      (picmgRecord d).bind fun p =>
+    if t = FruTables.picmgRecordType ∧ isPicmgRec v d = true then
+      (picmgRecord v d).bind fun p =>
       if p.picmgId = FruTables.powerModuleId then
         if d.length < FruTables.minPower then .decodingError
-        else (picmgRecord d).bind fun q =>
+        else (picmgRecord v d).bind fun q =>
+          if !v.picmgTypeOnly && decide (q.base.length < powerMinLen) then .decodingError
+          else
           .ok (.power q.base.typeId q.base.eol q.base.length q.base.raw q.mfgId q.picmgId q.version
                 (d.getD 10 0 + d.getD 11 0 * 256))
-      else (picmgRecord d).bind fun q =>
+      else (picmgRecord v d).bind fun q =>
         .ok (.picmg q.base.typeId q.base.eol q.base.length q.base.raw q.mfgId q.picmgId q.version)
     else (baseRecord d).bind fun b => .ok (.unknown b.typeId b.version b.eol b.length b.raw)
 
@@ -231,17 +267,17 @@ def RecView.length : RecView → Nat
   | .power _ _ l _ _ _ _ _ => l
 
 /-- InventoryMultiRecordArea._from_data; every record consumes ≥ 5 bytes, `fuel` = number of bytes -/
-def multiLoop : Nat → List Nat → Outcome (List RecView)
+def multiLoop (v : Variant) : Nat → List Nat → Outcome (List RecView)
   | 0, _ => .pyError "unreachable"
   | fuel + 1, d =>
-    (parseRecord d).bind fun r =>
+    (parseRecord v d).bind fun r =>
     if r.eol then .ok [r]
-    else (multiLoop fuel (d.drop (r.length + 5))).bind fun rs => .ok (r :: rs)
+    else (multiLoop v fuel (d.drop (r.length + 5))).bind fun rs => .ok (r :: rs)
 
-def parseMulti (d : List Nat) : Outcome (Slot (List RecView)) :=
+def parseMulti (v : Variant) (d : List Nat) : Outcome (Slot (List RecView)) :=
   match d with
   | [] => .ok .empty
-  | _ => (multiLoop d.length d).bind fun rs => .ok (.parsed rs)
+  | _ => (multiLoop v d.length d).bind fun rs => .ok (.parsed rs)
 
 /-! ### header and inventory -/
 
@@ -266,7 +302,7 @@ def parseFru (v : Variant) (k : InputKind) (bs : List Nat) : Outcome FruView :=
     (slotStep h.chassisOff bs (parseArea v k .chassis)).bind fun c =>
     (slotStep h.boardOff bs (parseArea v k .board)).bind fun b =>
     (slotStep h.productOff bs (parseArea v k .product)).bind fun p =>
-    (slotStep h.multiOff bs parseMulti).bind fun m =>
+    (slotStep h.multiOff bs (parseMulti v)).bind fun m =>
     .ok ⟨some h, c, b, p, m⟩
 
 end PyIpmi.Fru
